@@ -6,7 +6,7 @@ import random
 
 LINE_KINDS = ["line_cursor", "line_buf", "line_file", "line_path", "zstd_cursor", "zstd_file", "zstd_path",
               "gzip_cursor", "gzip_file", "gzip_path"]
-WORDS = ["a", "b", "ab", "", "", "xyz", "é", "日本", "\U0001f600", "line", " ", "\t", "tab\tsep", "x" * 40]
+WORDS = ["a", "b", "ab", "", "", "xyz", "é", "日本", "\U0001f600", "line", " ", "\t", "tab\tsep", "x" * 40, "\ufeff", "\ufeffbom"]
 
 
 def rline(r, maxlen):
@@ -157,6 +157,61 @@ def big_episodes(seed, count, sizes=(9000, 20000, 40000, 150000, 300000)):
         else:
             ops = [{"op": "next"}, {"op": "rewind"}, {"op": "next"}, {"op": "next"}, {"op": "rewind"}, {"op": "drain"}]
         ep["ops"] = [{"op": "open"}] + ops
+        eps.append(ep)
+    return eps
+
+
+def marked_episodes(seed, count):
+    """inputs that begin with bytes a reader might treat specially -- a UTF-8 byte-order mark, a BOM-only file,
+    UTF-16 marks, a NUL, a lone CR -- through every way of constructing every lender kind: whatever the first pass
+    does with them, every pass does (and a line lender yields them as part of the first line)"""
+    r = random.Random(seed ^ 0xB03)
+    heads = [b"\xef\xbb\xbf", b"\xef\xbb\xbf\n", b"\xef\xbb\xbf\r\n", b"\xef\xbb", b"\xef\xbb\xbf\xef\xbb\xbf", b"\x00", b"\r", b"#!"]
+    eps = []
+    for t in range(count):
+        kind = LINE_KINDS[t % len(LINE_KINDS)]
+        head = heads[(t // len(LINE_KINDS) + t) % len(heads)]
+        nl = r.choice([0, 0, 1, 3, 12])
+        body = rtext(r, nl)
+        if nl == 0 and head.startswith(b"\xef\xbb\xbf") and r.random() < 0.5:
+            body = b""
+        text = head + body
+        if not _valid_utf8(text):
+            text = b"\xef\xbb\xbf" + body
+        ep = {"fam": "lender", "src": "marked", "kind": kind, "input": list(text), "take": rtake(r, nl + 1)}
+        params(r, ep)
+        ep["ops"] = [{"op": "open"}] + r.choice([
+            [{"op": "drain"}, {"op": "rewind"}, {"op": "drain"}, {"op": "rewind"}, {"op": "next"}],
+            [{"op": "next"}, {"op": "rewind"}, {"op": "next"}, {"op": "rewind"}, {"op": "drain"}],
+            [{"op": "rewind"}, {"op": "drain"}, {"op": "rewind"}, {"op": "nexts", "c": 2}, {"op": "rewind"}, {"op": "drain"}]])
+        eps.append(ep)
+    return eps
+
+
+def _valid_utf8(b):
+    try:
+        b.decode("utf-8")
+        return True
+    except UnicodeDecodeError:
+        return False
+
+
+def wide_window_episodes(seed, count):
+    """zstd frames that declare a window of 2^25 .. 2^30 bytes (zstd --long): beyond 2^27 a decoder with default
+    limits refuses the frame. Whatever the first pass yields (all the lines, or an error) is the reference: every
+    pass after a rewind must yield exactly that -- the decoder made by rewind() must be configured as the first."""
+    r = random.Random(seed ^ 0x10C)
+    eps = []
+    for t in range(count):
+        kind = ("zstd_cursor", "zstd_file", "zstd_path")[t % 3]
+        nl = r.choice([1, 5, 100])
+        ep = {"fam": "lender", "src": "wide-window", "kind": kind, "input": list(rtext(r, nl)), "take": []}
+        params(r, ep)
+        ep["frames"] = 1
+        ep["corrupt"] = {"wlog": [25, 27, 28, 30, 31][t % 5]}
+        c1 = r.randrange(1, nl + 2)
+        ep["ops"] = [{"op": "open"}, {"op": "drain"}, {"op": "rewind"}, {"op": "drain"}, {"op": "rewind"},
+                     {"op": "nexts", "c": c1}, {"op": "rewind"}, {"op": "drain"}]
         eps.append(ep)
     return eps
 
